@@ -232,6 +232,10 @@ def clear_array_attributes(entity: Entity, recursive: bool = False):
         if hasattr(entity, attribute):
             setattr(entity, f"_{attribute}", None)
 
+    # the parts of a curve are derived from its cells: a stale cache would rebuild (and store) other cells
+    if getattr(entity, "_parts", None) is not None:
+        setattr(entity, "_parts", None)
+
     if recursive and hasattr(entity, "children"):
         for child in entity.children:
             clear_array_attributes(child, recursive=recursive)
